@@ -151,3 +151,17 @@ package actions
 //@   modifies gVars, gVarCount
 //@   on entry do gVarCount = 0
 //@   ensures[exactly-the-retry-headers] gVarCount == 2 && gVars["retry_request"] == box(true) && gVars["retry_headers"] == box(utils.DumpHeaders(lunarAction.HeadersToSet))
+
+// ---------------------------------------------------------------- C17: an action applied to a response message never changes which call (sequence) the message belongs to
+//@ func (*ModifyResponseAction).EnsureResponseIsUpdated
+//@   prop C17
+//@   requires lunarAction != nil && onResponse != nil && onResponse.Headers != nil
+//@   modifies mapof(onResponse.Headers), onResponse.Body, onResponse.Status
+//@   loop 1 modifies mapof(onResponse.Headers)
+//@   ensures[same-call] onResponse.ID == old(onResponse.ID) && onResponse.SequenceID == old(onResponse.SequenceID)
+//@ func (*NoOpAction).EnsureResponseIsUpdated
+//@   prop C17
+//@   modifies nothing
+//@ func (*RetryRequestAction).EnsureResponseIsUpdated
+//@   prop C17
+//@   modifies nothing
